@@ -234,6 +234,16 @@ def run(ctx):
             else:
                 handlers.append((oid, name, src))
         docs.append((cxx.document(bindings, handlers, extra), chunk, [("root", "VObj")] + cxx.OBJECT_DECLS + extra))
+    # grouped (gadget) sub-bindings: the same programs as members of the VGadget property g, alone in their document so that nothing else brings the includes in
+    gad = [it for it in accepted if it[0] == "binding" and it[3] in ("int", "string")]
+    rng.shuffle(gad)
+    for it in gad[:(200 if ctx.tier == "thorough" else 40)]:
+        member = "font.pointSize" if it[3] == "int" else "font.family"
+        docs.append((cxx.document([("tgt", member, it[2])]), [("binding", member, it[2], it[3])], [("root", "VObj")] + cxx.OBJECT_DECLS))
+        ctx.dist("gadget-member-binding")
+    for member, src in (("font.pointSize", "Math.max(a.i, 1)"), ("font.pointSize", "Math.min(a.i, b.i)"), ("font.family", '{ console.log("x"); return a.s }'),
+                        ("font.pointSize", "{ console.warn(a.i); return a.i }")):
+        docs.append((cxx.document([("tgt", member, src)]), [("binding", member, src, None)], [("root", "VObj")] + cxx.OBJECT_DECLS))
     res2 = qml.run_docs(vh, [d for d, _, _ in docs])
     work = os.path.join(C.BUILD, "c16")
     shutil.rmtree(work, ignore_errors=True)
